@@ -104,7 +104,8 @@ def gen_cases(tier, seed):
     cases = []
     for i in range(n_mix):
         s = rng.getrandbits(32)
-        cases.append({"kind": "mix", "seed": s, "tc": i % 5 == 4, "loud": i % 7 == 6, "steps": gen_mix(random.Random(s), tier)})
+        cases.append({"kind": "mix", "seed": s, "tc": i % 5 == 4, "loud": (2 if i % 14 == 13 else True) if i % 7 == 6 else False,
+                      "steps": gen_mix(random.Random(s), tier)})
     for i in range(n_seq):
         s = rng.getrandbits(32)
         r = random.Random(s)
@@ -136,7 +137,7 @@ def gen_cases(tier, seed):
         steps += [["sub", "m", 1234], ["pub", "q", 1234, 0, 0, 8], ["round", {"only": ["m", "q"], "seed": r.getrandbits(30), "adv": 0.001}],
                   ["drain", {"adv": 0.001}], ["sub", "q", 1235], ["drain", {"adv": 0.001}]]
         # half of them with the manager's own log messages published (RTMA_LOG_* travel through the same fan-out)
-        cases.append({"kind": "mix", "seed": s, "tc": i % 3 == 2, "loud": i % 2 == 1, "steps": steps})
+        cases.append({"kind": "mix", "seed": s, "tc": i % 3 == 2, "loud": [False, True, False, 2][i % 4], "steps": steps})
     for i in range(n_free):
         cases.append({"kind": "free", "seed": rng.getrandbits(32), "tc": i % 3 == 2, "npub": rng.randint(2, 8),
                       "nsub": rng.randint(2, 4), "nmsg": rng.choice([200, 500, 1200]), "timeout": 60})
@@ -160,7 +161,7 @@ def run_case(case, tier):
         return run_pressure(case)
     if case["kind"] == "twin":
         return run_twin(case)
-    rig = ManagerRig(stepped=True, timecode=bool(case.get("tc")), loud=bool(case.get("loud")))
+    rig = ManagerRig(stepped=True, timecode=bool(case.get("tc")), loud=case.get("loud") or False)
     try:
         sc = Scenario(rig, case.get("seed", 0))
         sc.vary_source = True
@@ -191,6 +192,7 @@ def judge_streams(streams, closed, pub_of, loggers=()):
     V = res["violations"]
     nframes = 0
     seqs = {}
+    ackkeys = set()
     for L, r in streams.items():
         ours, eof = closed[L]
         if r["parse_error"]:
@@ -225,7 +227,12 @@ def judge_streams(streams, closed, pub_of, loggers=()):
         # identities for the cross-receiver graph
         # acknowledgements are unicast to their requester; only logger modules receive copies of other modules'
         # acknowledgements, so only among loggers is "the same acknowledgement" a message shared by two receivers
-        ids = [f.key() for f in frames if not (f.msg_type == W.MT_ACK and f.src_mod == 0 and pub_of(f) is None and L not in loggers)]
+        # (a requester's own acknowledgement and the copy a logger gets of it are one message; two non-logger connections
+        # never share one - they are compared without acknowledgements further down)
+        ids = [f.key() for f in frames]
+        for f in frames:
+            if f.msg_type == W.MT_ACK and f.src_mod == 0 and pub_of(f) is None:
+                ackkeys.add(f.key())
         cnt = {}
         for k in ids:
             cnt[k] = cnt.get(k, 0) + 1
@@ -255,6 +262,8 @@ def judge_streams(streams, closed, pub_of, loggers=()):
         for j in range(i + 1, len(labels)):
             B = seqs[labels[j]]
             common = [k for k in B if k in posA]
+            if labels[i] not in loggers and labels[j] not in loggers:
+                common = [k for k in common if k not in ackkeys]
             if len(common) < 2:
                 continue
             res["nontrivial"] = True
@@ -359,13 +368,7 @@ def run_free(case):
         rig.settle(5.0)
         if not rig.alive():
             return {"violations": [{"mech": "manager_died", "detail": (rig.crash or "ended")[-800:]}], "counters": {}}
-        streams = {}
-        for wc in allc:
-            try:
-                fr, left = wc.frames()
-                streams[wc.label] = {"frames": fr, "leftover": left, "eof": wc.eof, "parse_error": None}
-            except W.ParseError as e:
-                streams[wc.label] = {"frames": [], "leftover": b"", "eof": wc.eof, "parse_error": str(e)}
+        streams = snapshot(rig, allc)
         res = judge_streams(streams, {wc.label: (None, wc.eof) for wc in allc},
                             lambda f: registry.get(f.pid), loggers={"s0"} if free_logger else ())
         res["sig"] = sig_of(case)
@@ -519,13 +522,7 @@ def run_twin(case):
         if not rig.alive() or not thB.is_alive():
             res["violations"].append({"mech": "manager_died", "detail": f"first manager alive={rig.alive()} second alive={thB.is_alive()}: {(rig.crash or '')[-600:]}"})
         for tag, cl, base in groups:
-            streams = {}
-            for wc in cl:
-                try:
-                    fr, left = wc.frames()
-                    streams[wc.label] = {"frames": fr, "leftover": left, "eof": wc.eof, "parse_error": None}
-                except W.ParseError as e:
-                    streams[wc.label] = {"frames": [], "leftover": b"", "eof": wc.eof, "parse_error": str(e)}
+            streams = snapshot(rig, cl)
             r1 = judge_streams(streams, {wc.label: (None, wc.eof) for wc in cl}, lambda f: registry.get(f.pid))
             res["violations"] += [dict(v, detail=f"manager {tag}: " + v["detail"]) for v in r1["violations"]]
             for k_, v_ in r1["counters"].items():
@@ -669,14 +666,8 @@ def run_pressure(case):
         fence("after the closing probes")
         if not rig.alive():
             return {"violations": [{"mech": "manager_died", "detail": (rig.crash or "ended")[-800:]}], "counters": {}}
-        streams = {}
         allc = slow + [fast] + pubs
-        for wc in allc:
-            try:
-                fr, left = wc.frames()
-                streams[wc.label] = {"frames": fr, "leftover": left, "eof": wc.eof, "parse_error": None}
-            except W.ParseError as e:
-                streams[wc.label] = {"frames": [], "leftover": b"", "eof": wc.eof, "parse_error": str(e)}
+        streams = snapshot(rig, allc)
         res = judge_streams(streams, {wc.label: (None, wc.eof) for wc in allc},
                             lambda f: registry.get(f.pid), loggers={"w0"} if case["slow_logger"] else ())
         res["sig"] = sig_of(case)
@@ -690,6 +681,31 @@ def run_pressure(case):
         for sc in slow:
             sc.close()
         rig.close()
+
+
+def snapshot(rig, clients):
+    """byte logs of free-running clients. A free-running manager originates periodic messages at any moment, so a
+    snapshot can fall between the header and the payload of one of them: while any log ends inside a frame the
+    snapshot is retaken (up to ~2 s). A frame that was really cut short stays cut short and is reported."""
+    streams = {}
+    for attempt in range(100):
+        streams = {}
+        partial = False
+        for wc in clients:
+            try:
+                fr, left = wc.frames()
+                streams[wc.label] = {"frames": fr, "leftover": left, "eof": wc.eof, "parse_error": None}
+                partial = partial or bool(left)
+            except W.ParseError as e:
+                streams[wc.label] = {"frames": [], "leftover": b"", "eof": wc.eof, "parse_error": str(e)}
+        if not partial:
+            break
+        time.sleep(0.02)
+        try:
+            rig.drainer.sync(1.0)
+        except Exception:
+            pass
+    return streams
 
 
 def inq_empty(s):
